@@ -36,7 +36,7 @@ RULE = (
     "non-trivial = by the reference >=2 inner subscriptions are opened and >=1 element is forwarded; distinct = the full descriptor; the counter "
     "cases_with_ties counts executions in which the oracle had to branch over simultaneous events"
 )
-BUDGET = {"quick": 180.0, "thorough": 2400.0}
+BUDGET = {"quick": 300.0, "thorough": 2400.0}
 
 
 # ------------------------------------------------------------------ alphabets
